@@ -260,7 +260,7 @@ func c19Run(c *Ctx) {
 				if ncalls == 0 && prompts {
 					continue
 				}
-				for rep := 0; rep < c.N(10, 40); rep++ {
+				for rep := 0; rep < c.N(10, 200); rep++ {
 					nl := ncalls + r.Intn(3)
 					if nl > 6 {
 						nl = 6
